@@ -466,6 +466,7 @@ type observation struct {
 	ids     string
 	idResp  map[string]response
 	loads   int
+	ctx     any // identity of the running config's context: changes with every load, also of configs without the probe app
 	saw     string
 	sawTree any
 	hasSaw  bool
@@ -586,6 +587,7 @@ func observe() (o observation, fails []core.Failure) {
 	o.loads = probeLoads
 	saw := probeSaw
 	probeMu.Unlock()
+	o.ctx = caddy.ActiveContext().Context
 	o.saw = "-"
 	if saw != nil {
 		if v, err := decodeJSON(saw); err == nil {
@@ -705,6 +707,7 @@ func playHist(steps []step, o *core.Outcome, tags map[string]bool) (outs []strin
 	var etags []etagRec
 	prev, pf := observe()
 	o.Failures = append(o.Failures, pf...)
+	allLoads := 0 // how often a config was started (any config: the context of the running config changed)
 	for i, st := range steps {
 		hdr, ref, refPath := st.header(etags)
 		var pre *response
@@ -722,7 +725,7 @@ func playHist(steps []step, o *core.Outcome, tags map[string]bool) (outs []strin
 				if st.m == "G" || st.m == "H" {
 					outs = append(outs, "amb")
 				} else {
-					outs = append(outs, "amb/"+prev.cfgEnc+"/"+prev.ids+"/"+strconv.Itoa(prev.loads)+"/"+prev.saw)
+					outs = append(outs, "amb/"+prev.cfgEnc+"/"+prev.ids+"/"+strconv.Itoa(prev.loads)+"/"+prev.saw+"/"+strconv.Itoa(allLoads))
 				}
 				continue
 			}
@@ -751,8 +754,21 @@ func playHist(steps []step, o *core.Outcome, tags map[string]bool) (outs []strin
 		}
 		cur, cf := observe()
 		o.Failures = append(o.Failures, cf...)
+		reloaded := cur.ctx != prev.ctx
+		if reloaded {
+			allLoads++
+		}
 		oracleWrite(st, r, hdr, ref, pre, prev, cur, &o.Failures, tags)
-		outs = append(outs, s+"/"+cur.cfgEnc+"/"+cur.ids+"/"+strconv.Itoa(cur.loads)+"/"+cur.saw)
+		if r.status == 200 && st.path != "/adapt" && !reloaded && (st.force || cur.cfgEnc != prev.cfgEnc) {
+			o.Failures = append(o.Failures, core.Failure{Class: "config-changed-without-load",
+				What: fmt.Sprintf("%s %s changed the document (or forced a reload) but no configuration was started", methodName[st.m], st.path)})
+		}
+		// (the very first load of a process is a load even of the null config: nothing was running)
+		if reloaded && (r.status != 200 || (!st.force && cur.cfgEnc == prev.cfgEnc && prev.ctx != nil)) {
+			o.Failures = append(o.Failures, core.Failure{Class: "unchanged-config-reloaded",
+				What: fmt.Sprintf("%s %s (answered %d) left the document unchanged without asking for a reload, but a configuration was started", methodName[st.m], st.path, r.status)})
+		}
+		outs = append(outs, s+"/"+cur.cfgEnc+"/"+cur.ids+"/"+strconv.Itoa(cur.loads)+"/"+cur.saw+"/"+strconv.Itoa(allLoads))
 		prev = cur
 	}
 	return outs, status
